@@ -25,7 +25,10 @@ FacetValues == [
     \* subject key identifier that is not the hash of its key (the signer identifier then names that wrong identifier)
     \* "resbad": its resource extension lists, AFTER a well-formed block that covers the object, an element that is not a range at
     \* all (bounds the wrong way round) - a certificate the decoder must refuse whole, not one to read up to the damage
-    ee     |-> {"ok", "wrongissuer", "expired", "notyet", "akibad", "isca", "skibad", "resbad"},
+    \* "overclaim": the issuer is a CA under the trimming policy whose own certificate claims more than ITS issuer holds (so part of
+    \* the claim was trimmed away); the EE certificate, under the no-overclaim policy, claims exactly what that CA's certificate
+    \* claims - more than the CA validly holds
+    ee     |-> {"ok", "wrongissuer", "expired", "notyet", "akibad", "isca", "skibad", "resbad", "overclaim"},
     ctattr |-> {"ok", "mismatch"},                   \* content-type attribute vs eContentType
     \* ROA: a prefix disjoint from the EE resources / less specific than a resource block / straddling the end of a range /
     \*      of a family the certificate has no resources for; ASPA: customer outside, inherited, IP resources present
@@ -76,6 +79,8 @@ Deviate == /\ devs < MaxDev
                 /\ (fc = "cover" /\ v = "straddle" => obj.pol = "refuse")
                 \* (the other ASPA coverage deviations are shapes of the certificate's extensions, realised without a claim to trim)
                 /\ (fc = "cover" /\ obj.kind = "aspa" /\ obj.pol = "trim" => v = "outside")
+                /\ (fc = "ee" /\ v = "overclaim" => obj.kind \in {"roa", "aspa"} /\ obj.fam = "v4" /\ obj.pol = "refuse" /\ obj.f.cover = "ok")
+                /\ (fc = "cover" /\ obj.f.ee = "overclaim" => FALSE)
                 /\ (fc = "ee" /\ v = "resbad" => obj.kind \in {"roa", "aspa"} /\ obj.fam \in {"v4", "v4+"} /\ obj.pol = "refuse")
                 /\ (fc = "crl" => obj.kind \in {"roa", "aspa", "gen"})   \* the process() entry points take a CRL callback
                 /\ obj' = [obj EXCEPT !.f[fc] = v]
